@@ -385,7 +385,7 @@ def c01_bounded(tier="quick", seed=0):
     bad = []
     for (name, src), (kind, dt) in zip(cases, res):
         finite = name.split(".")[0].startswith("regex")      # may legitimately finish (or fail) before the deadline
-        ok = (kind == "TimeLimitError" or (finite and dt < T and not kind.startswith("HANG"))) and dt < T + 3.0
+        ok = (kind == "TimeLimitError" or (finite and not kind.startswith("HANG") and not kind.startswith("HOST"))) and dt < T + 3.0
         if not ok:
             bad.append((name, src, kind, round(dt, 2)))
     by = {}
